@@ -311,7 +311,9 @@ class World:
         ftab = {f.name: f for f in U.FIELDS[cls]}
         for fname, enc in spec.get("p", {}).items():
             f = ftab[fname]
-            if isinstance(enc, dict) and "raw" in enc:
+            if isinstance(enc, dict) and "pow10" in enc:
+                kw[fname] = 10 ** enc["pow10"]  # an int whose decimal rendering Python refuses (str() raises ValueError)
+            elif isinstance(enc, dict) and "raw" in enc:
                 kw[fname] = enc["raw"]
             elif isinstance(enc, dict) and "raw_tuple" in enc:
                 kw[fname] = tuple(enc["raw_tuple"])
@@ -1428,6 +1430,15 @@ class Gen:
         if "ref" in spec:
             spec = self.spec(0)
         op: dict[str, Any] = {"op": "construct", "spec": spec, "out": self.out()}
+        if self.cfg["faults"] and r.random() < 0.03:
+            # a construction that fails while a property value is being rendered for the digests (after other
+            # properties were rendered already): an int too long for str()
+            cls = r.choice(["Vals", "LeafA2", "Upper"])
+            fld = {"Vals": "i", "LeafA2": "c", "Upper": "ID"}[cls]
+            p = {f.name: self.value(f.vt) for f in U.PROP_FIELDS[cls] if f.init and f.default is None}
+            p[fld] = {"pow10": 5000}
+            self.w.stats.probes["construction_fails_in_digest_rendering"] += 1
+            return {"op": "construct", "spec": {"c": cls, "p": p, "ch": {}, "o": r.choice(self.cfg["origins"])}, "out": self.out(), "expect": "fail"}
         if self.cfg["faults"] and _has_class(spec, "Boom") and r.random() < 0.6:
             op["fault"] = {"site": r.choice(["post_init_pre", "post_init_post"]), "k": 1}
         return op
@@ -1634,7 +1645,7 @@ class Gen:
         for _ in range(r.choice([2, 2, 3, 4])):
             src = r.sample(["a", "b", "c"], r.choice([1, 1, 2, 3]))
             batches.append({"src": src, "leaves": [r.choice(src) for _ in range(r.choice([1, 2, 3]))], "idx": r.random() < 0.8})
-        return {"op": "peer_source_cycles", "batches": batches}
+        return {"op": "peer_source_cycles", "batches": batches, "sub_clear": r.random() < 0.3}
 
     def g_peer_cid(self, actor: str) -> dict[str, Any] | None:
         ref = self.pick_ref(actor, root_bias=0.7)
@@ -1694,7 +1705,7 @@ class Gen:
         if what == "visit":
             op["rules"] = {c: "keep" for c in r.sample(["Expr", "LeafA", "Seq", "Pair", "LeafB", "Falsy", "LeafA2"], 3)}
             op["strict"] = r.random() < 0.5
-            op["vshape"] = r.choice(["flat", "flat", "base", "split", "validate"])
+            op["vshape"] = r.choice(["flat", "flat", "base", "split", "validate", "mixin", "second_base", "late"])
         return op
 
     def g_poke(self, actor: str) -> dict[str, Any] | None:
@@ -1755,7 +1766,7 @@ class Gen:
         o = self.w.node_at(ref)
         if len(walk(o)) > 25:
             return None
-        op: dict[str, Any] = {"op": "transform", "n": ref, "rules": self.gen_rules(o), "strict": r.random() < 0.4, "vshape": r.choice(["flat", "flat", "base", "split", "validate"]), "out": self.out()}
+        op: dict[str, Any] = {"op": "transform", "n": ref, "rules": self.gen_rules(o), "strict": r.random() < 0.4, "vshape": r.choice(["flat", "flat", "base", "split", "validate", "mixin", "second_base", "late"]), "out": self.out()}
         if self.cfg["faults"]:
             op["enum"] = True
         if self.cfg["faults"] and r.random() < 0.08:
@@ -2172,6 +2183,21 @@ def _shape(V0: Any, name: str, ns: dict[str, Any], shape: str) -> Any:
         upper = {k: v for k, v in ns.items() if k not in lower}
         B = type(name + "Base", (V0,), upper)
         return type(name, (B,), lower)
+    if shape == "mixin":
+        # the rule methods live in a plain class (no visitor) that is mixed in before the visitor base
+        R = type(name + "Rules", (), {k: ns[k] for k in meths})
+        return type(name, (R, V0), {k: v for k, v in ns.items() if k not in meths})
+    if shape == "second_base":
+        # two visitor bases, the rule methods sit on the second one
+        A = type(name + "A", (V0,), {k: v for k, v in ns.items() if k not in meths})
+        B = type(name + "B", (V0,), {k: ns[k] for k in meths})
+        return type(name, (A, B), {})
+    if shape == "late":
+        # rule methods attached after the class was created
+        V = type(name, (V0,), {k: v for k, v in ns.items() if k not in meths})
+        for k in meths:
+            setattr(V, k, ns[k])
+        return V
     if shape == "validate":
         for k in meths:
             ns[k].__annotations__ = {"node": k[6:]}
@@ -2524,7 +2550,7 @@ def op_peer_source_cycles(self: World, op: dict[str, Any]) -> str:
     consumer process that runs the documented cycle once per batch."""
     if self.peer is None:
         raise SkipOp("no peer")
-    rep = self.peer.request({"op": "source_cycles", "batches": op["batches"], "digest": self.cfg["digest"]})
+    rep = self.peer.request({"op": "source_cycles", "batches": op["batches"], "digest": self.cfg["digest"], "sub_clear": bool(op.get("sub_clear"))})
     if "error" in rep:
         if rep["error"].startswith("peer-harness"):
             raise HarnessError(rep["error"])
